@@ -43,6 +43,23 @@ type Case struct {
 
 var typeSeq int
 
+// CI has the shape of the specification's I and a context-aware marshaler that forwards its context:
+// the sub-query selected for the member must reach the nested MarshalContext.
+type CJ struct{ D, E int }
+type CI struct {
+	A int
+	B string
+	C CJ
+}
+
+func (c *CI) MarshalJSON(ctx context.Context) ([]byte, error) {
+	type plain CI
+	if ctx == nil {
+		return gojson.Marshal((*plain)(c))
+	}
+	return gojson.MarshalContext(ctx, (*plain)(c))
+}
+
 type types struct{ t, i, j reflect.Type }
 
 // fresh returns structurally identical but distinct struct types (cold caches)
@@ -56,7 +73,7 @@ func fresh() types {
 	i := reflect.StructOf([]reflect.StructField{{Name: "A", Type: intT}, {Name: "B", Type: strT}, {Name: "C", Type: j}, pad()})
 	t := reflect.StructOf([]reflect.StructField{
 		{Name: "X", Type: intT}, {Name: "P", Type: reflect.PtrTo(i)}, {Name: "V", Type: i}, {Name: "S", Type: reflect.SliceOf(i)},
-		{Name: "M", Type: reflect.MapOf(strT, i)}, {Name: "F", Type: reflect.TypeOf((*interface{})(nil)).Elem()}, pad()})
+		{Name: "M", Type: reflect.MapOf(strT, i)}, {Name: "F", Type: reflect.TypeOf((*interface{})(nil)).Elem()}, {Name: "K", Type: reflect.TypeOf((*CI)(nil))}, pad()})
 	return types{t, i, j}
 }
 
@@ -87,6 +104,7 @@ func (ty types) value(k int) interface{} {
 		m.SetMapIndex(reflect.ValueOf("k2"), ty.mkI(8, "n", 9, 1))
 		v.Field(4).Set(m)
 		v.Field(5).Set(ty.mkI(2, "f", 3, 4))
+		v.Field(6).Set(reflect.ValueOf(&CI{A: 7, B: "k", C: CJ{8, 9}}))
 	} else {
 		v.Field(3).Set(reflect.MakeSlice(reflect.SliceOf(ty.i), 0, 0))
 		v.Field(4).Set(reflect.MakeMap(reflect.MapOf(reflect.TypeOf(""), ty.i)))
@@ -140,7 +158,7 @@ func diffClass(got, want string) string {
 		}
 		return nil
 	}
-	through := map[string]string{`"X"`: "scalar", `"P"`: "pointer", `"V"`: "value-struct", `"S"`: "slice", `"M"`: "map", `"F"`: "interface"}
+	through := map[string]string{`"X"`: "scalar", `"P"`: "pointer", `"V"`: "value-struct", `"S"`: "slice", `"M"`: "map", `"F"`: "interface", `"K"`: "context-aware-marshaler"}
 	for i, k := range g.Keys {
 		wv := find(w, k)
 		if wv == nil {
